@@ -25,23 +25,27 @@ def names_job(job):
         for d in DECOYS:
             ws.write(sentinel, d, scen.content([0]))
 
+        # every other case spells the components a and d with a byte that is not valid UTF-8 (str with surrogate escapes)
+        nonutf = (len(case['old']) + len(case['new']) + case['strip'] + threads) % 2 == 1
+        sp = (lambda c: {'a': 'a\udce9', 'd': '\udcffd'}.get(c, c)) if nonutf else (lambda c: c)
+
         def text(name):
             if name and name[0] == '/':
-                return sentinel + '/' + '/'.join(name[1:])
-            return '/'.join(name)
+                return sentinel + '/' + '/'.join(sp(c) for c in name[1:])
+            return '/'.join(sp(c) for c in name)
         old_t, new_t = text(case['old']), text(case['new'])
         absolute = case['old'][0] == '/' or case['new'][0] == '/'
         decisive = not v['degenerate'] and not (absolute and case['strip'] > 0)
         if decisive and not v['refused']:
             for n in (v['old'], v['new']):
-                p = '/'.join(n)
+                p = '/'.join(sp(c) for c in n)
                 if not os.path.isdir(os.path.join(w, p)):
                     ws.write(w, p, scen.content([0]))
         ws.write(w, 'keep', b'keep\n')
         if case['viaGit']:
-            patch = ('diff --git %s %s\nrename from %s\nrename to %s\n' % (old_t, new_t, old_t, new_t)).encode()
+            patch = os.fsencode('diff --git %s %s\nrename from %s\nrename to %s\n' % (old_t, new_t, old_t, new_t))
         else:
-            patch = ('--- %s\n+++ %s\n' % (old_t, new_t)).encode() + HUNK
+            patch = os.fsencode('--- %s\n+++ %s\n' % (old_t, new_t)) + HUNK
         ws.write(w, 'patches/p1.patch', patch)
         ws.write(w, 'patches/p2.patch', scen.render_fp({'kind': 'C', 'old': 'NULL', 'new': 'later', 'ren': False, 'hunks': [], 'to': [0], 'from': [], 'nmode': 'none'}))
         ws.write(w, 'series', b'p1.patch -p%d\np2.patch\n' % case['strip'])
@@ -85,7 +89,7 @@ def names_job(job):
                 if ap and ap[0]:
                     probs.append(('refused-but-recorded', 'patches recorded after a refused file patch: %r' % ap[0]))
             elif not case['viaGit']:
-                target = '/'.join(v['old'])
+                target = '/'.join(sp(c) for c in v['old'])
                 if rc != 0 or scen.cells_of(inside_after.get(target, (b'x',))[0]) != [1]:
                     probs.append(('safe-name-not-applied', 'names %r / %r with -p%d are harmless (target %s) but the push gave exit %d: %s'
                                   % (old_t, new_t, case['strip'], target, rc, se.strip()[-150:])))
